@@ -60,6 +60,10 @@ func (interp *Interpreter) SingleStepStateTransition(pc ProgramCounter) (ExitRea
 		return exitReason, 0
 	case HOST_CALL: // host-call: newPC = pc
 		return exitReason, newPC
+	case PAGE_FAULT:
+		// (GP A.1) a faulting instruction is not completed: the machine stays at it, so that it is
+		// retried when the machine is resumed
+		return exitReason, pc
 	}
 
 	if exitReason == exitContinueSelfBranch {
